@@ -51,6 +51,13 @@ CHECKS = {
         note="encode_frame is an abstract callee; Fragments units are BOUNDED (listed under coverage.bounded_units). Total-length "
              "attribute and frame_pixel_data are not covered.",
     ),
+    "C25": dict(
+        technique="Verus contracts on the extracted chunk writers (all item lengths) and on the framing head of read_pdu (declared cut)",
+        text="Proof that every length-prefixed item is written with a length that matches its content or the write fails, and that the "
+             "reader's framing treats every strict prefix as incomplete and enforces the strict maximum; PDU-type bodies are not covered.",
+        note="Per-type encode/decode bodies of write_pdu/read_pdu are uncovered (Kani ICE, outside Verus' subset); builder closures and "
+             "byte sinks are abstract.",
+    ),
     "C26": dict(
         technique="Verus contracts (requires/ensures + representation invariant) on the extracted text of the synchronous P-DATA writer",
         text="Unbounded proof, for every payload, max PDU length and chunking, that each PDU handed to the transport is a "
@@ -88,7 +95,6 @@ NOT_APPLICABLE = {
     "C17": "check not built yet in this session (planned in DESIGN.md section 7); not claimed until its check runs",
     "C20": "check not built yet in this session (planned in DESIGN.md section 7); not claimed until its check runs",
     "C22": "check not built yet in this session (planned in DESIGN.md section 7); not claimed until its check runs",
-    "C25": "check not built yet in this session (planned in DESIGN.md section 7); not claimed until its check runs",
     "C27": "check not built yet in this session (planned in DESIGN.md section 7); not claimed until its check runs",
     "C31": "check not built yet in this session (planned in DESIGN.md section 7); not claimed until its check runs",
     "C34": "check not built yet in this session (planned in DESIGN.md section 7); not claimed until its check runs"
